@@ -69,11 +69,13 @@ def cases(rng, tier):
                 ns = [rng.choice([2, 3]) for _ in range(k)]
                 ws = []
                 for n in ns:
-                    if r < 0.6:
+                    if r < 0.5:
                         ws += G.rand_opinion(rng, n, rng.choice([4, 8, 16]), G.rand_kind(rng))
-                    else:
+                    elif r < 0.75:
                         b, u = G.float_simplex(rng, fmt, n)
                         ws += b + [u] + G.float_dist(rng, fmt, n)
+                    else:   # dogmatic / vacuous float operands and zero base-rate entries (where the product used to yield -inf)
+                        ws += G.float_opinion_kind(rng, fmt, n)
                 out.append(G.line(op, fmt, "M." + rng.choice(["o", "r"]), ns, ws))
     return out
 
@@ -83,4 +85,4 @@ def search(rng, ops, broken):
 
 
 # tie theorems (substrings of SLV.Gen.*Tie theorem names) this property's operators depend on
-TIE = ['gen_mul_eq', 'gen_comul_eq', 'cfuse', 'afuse', 'wfuse', 'gen_deduce_eq', 'trans_', 'product', 'gen_check_simplex_eq', 'gen_check_base_rate_eq', 'BSimplex_try_new', 'gen_try_new_eq', 'gen_new_eq']
+TIE = ['gen_mul_eq', 'gen_comul_eq', 'cfuse', 'afuse', 'wfuse', 'gen_deduce_eq', 'trans_', 'product', 'gen_check_simplex_eq', 'gen_check_base_rate_eq', 'BSimplex_try_new', 'gen_try_new_eq', 'gen_new_eq', 'gen_is_in_range_eq', 'gen_in_unit_interval_eq', 'gen_is_one_eq', 'gen_is_zero_eq', 'gen_check_unit_interval_eq', 'gen_check_is_one_eq']
